@@ -19,7 +19,7 @@ class C11(PropCheck):
                   "2.3.4.2.2 index sequence for every length >= 0 and every start/end/step in Z u {absent}; all "
                   "produced indices are in bounds; process_index is the RFC index rule; both loops stop within "
                   "len iterations. The model is tied to selector.rs by running the extracted model and the crate "
-                  "on the exhaustive scope ({absent} u [-8,8])^3 x len 0..7 plus extremes on every run.")
+                  "on the exhaustive scope ({absent} u [-8,8])^3 x len 0..7 plus extremes on every run. String level (C11_string_level_slice / _index): the TEXT $[a:b:c] or $[i], for all I-JSON integers and every subset of parts, through grammar, parser.rs and process_slice/process_index, returns exactly the RFC index sequence in order on every document.")
     level_note = ("hand model of process_index/process_slice in Z (machine-range questions are C08's); "
                   "correspondence is differential testing; see evidence trusted_base")
     rule = ("EVAL cases $[start:end:step] and $[i] built as ASTs; quick: exhaustive (start,end,step) in "
@@ -288,7 +288,7 @@ class C02(EvalProp):
     level_text = ("Theorem A (Refine.v): the model's result sequence equals the RFC semantics with the one switch sel_major on, for "
                   "every query and document; theorem B: with no multi-selector segment the two semantics coincide, so the order "
                   "is the RFC's; the remaining class (a multi-selector segment over several input nodes) is the known finding D1, "
-                  "whose witness lemma is proved by vm_compute. Correspondence: sequences of result locations.")
+                  "whose witness lemma is proved by vm_compute. Correspondence: sequences of result locations. String level (C02_string_level_union): the TEXT of a bracketed selection of names, wildcards, indices and slices, through the generated grammar, parser.rs and the evaluator, returns the nodes of the selectors in the order written (list equality).")
     level_note = "D1 (selector-major union order) is entrenched by the unit test query::tests::index_unit_keys_test; known finding"
     rule = ("random pairs biased to fan-out before unions, negative slice steps and descendants; observable = sequence of result "
             "locations; non-trivial = RFC nodelist has >= 2 nodes; a case is in class D1 iff the spec with sel_major differs from the RFC")
@@ -1035,7 +1035,7 @@ class C13(EvalProp):
                   "space does not change the AST is proved for the whole filter-free sublanguage (C13_blank_space_filter_free: the generated "
                   "grammar executed symbolically with arbitrary blank runs at every S position); for filters it is checked on every run by "
                   "rendering each query under k random layouts and spellings (quick k=6, thorough k=24) and by the slot sweep through the "
-                  "crate, comparing all results pairwise and with the RFC semantics.")
+                  "crate, comparing all results pairwise and with the RFC semantics. String level: $[?e] vs $[?(e)] for every expression of the filter tower (C13_string_level_parens) and $.name vs $['name'] for every shorthand name (C13_string_level_shorthand) select the same nodes in the same order.")
     level_note = "layout-insensitivity of the AST is proved for filter-free queries only; names spelled with escapes are the known class D7"
     rule = ("each (query, document) is spelled k ways (name quoting, .* vs [*], ?e vs ?(e), int vs float, blank space at every S); all "
             "spellings go through query_with_path; observable = sequence of locations; a group is non-trivial when the RFC result is non-empty")
